@@ -144,8 +144,11 @@ theorem addChild_inv (d : Dir) (name cid : Bytes) (tsize : Nat) (h : Inv d) :
   have h1 := removeChild_inv d name h
   have hno := removeChild_no_name d name
   unfold addChild
-  generalize (removeChild d name).1 = d1 at h1 hno
-  simp only []
+  generalize removeChild d name = r at h1 hno
+  obtain ⟨d1, found⟩ := r
+  simp only [] at h1 hno ⊢
+  split
+  · exact h1
   by_cases hc : C11.checkLink ⟨name, cid, tsize⟩ = true
   · rw [if_neg (by simp [hc])]
     generalize hl : (⟨name, cid, tsize⟩ : C11.Link) = l at hc
@@ -223,6 +226,9 @@ theorem setStat_inv (d : Dir) (mode : BitVec 32) (t : C18.Time) (h : Inv d) : In
   unfold setStat
   simp only []
   split <;> split <;> exact ⟨h.est, h.total, h.nodup, h.chk, h.nonneg⟩
+
+theorem setMaxLinks_inv (d : Dir) (n : Int) (h : Inv d) : Inv (setMaxLinks d n) :=
+  ⟨h.est, h.total, h.nodup, h.chk, h.nonneg⟩
 
 theorem setEstMode_inv (d : Dir) (m : EstMode) (h : Inv d) : Inv (setEstMode d m) := by
   unfold setEstMode
